@@ -76,13 +76,20 @@ CORPUS_COORD = [
 
 
 # ---------------------------------------------------------------- generators: group trees
-GROUPS = ["g", "h", "k", "m"]
-DIMS = ["x", "y", "t"]
-VARS = ["x", "y", "t", "lat", "p", "w"]
+GROUPS = GROUPS0 = ["g", "h", "k", "m"]
+DIMS = DIMS0 = ["x", "y", "t"]
+VARS = VARS0 = ["x", "y", "t", "lat", "p", "w"]
 
 
-def rand_tree(rng, depth=0, maxdepth=3, visible=()):
+# names for which the proposed flattened names of different elements coincide (F11b)
+GROUPS_C = ["g", "g_", "h", "k"]
+DIMS_C = ["x", "_x", "g__x"]
+VARS_C = ["x", "_x", "g__x", "g__x_1", "h__x", "p"]
+
+
+def rand_tree(rng, depth=0, maxdepth=3, visible=(), pools=None):
     """A random group: dims, vars (dims chosen among the visible ones), children."""
+    GROUPS, DIMS, VARS = pools or (GROUPS0, DIMS0, VARS0)
     t = {"name": "", "dims": [], "vars": [], "subs": []}
     for d in rng.sample(DIMS, len(DIMS)):
         if rng.random() < (0.5 if depth == 0 else 0.3):
@@ -99,9 +106,9 @@ def rand_tree(rng, depth=0, maxdepth=3, visible=()):
                 dims = [rng.choice(vis) for _ in range(rng.choice([1, 1, 2]))]
             t["vars"].append({"name": v, "dims": dims})
     if depth < maxdepth:
-        nsub = rng.choice([1, 2, 3] if depth == 0 else [0, 0, 1, 2])
+        nsub = rng.choice([1, 2, 3] if depth == 0 else [0, 0, 1, 2] if maxdepth <= 3 else [0, 1, 1, 2])
         for name in rng.sample(GROUPS, nsub):
-            c = rand_tree(rng, depth + 1, maxdepth, vis)
+            c = rand_tree(rng, depth + 1, maxdepth, vis, pools)
             c["name"] = name
             t["subs"].append(c)
     return t
@@ -123,7 +130,9 @@ def rand_ref(rng, tree, gpath):
     """A reference string of one of the CF forms, biased towards things that exist."""
     groups = list(all_groups(tree))
     r = rng.random()
-    name = rng.choice(VARS + DIMS)
+    own = sorted({v["name"] for _, g in groups for v in g["vars"] if not v["name"].startswith("q")}
+                 | {d for _, g in groups for d, _ in g["dims"]})
+    name = rng.choice(own) if own and rng.random() < 0.85 else rng.choice(VARS + DIMS)
     if r < 0.2:                                   # absolute
         p, g = rng.choice(groups)
         names = [v["name"] for v in g["vars"]] + [d for d, _ in g["dims"]]
@@ -286,12 +295,22 @@ def cf_targets(T, gpath, ref, kind, lateral):
     return set()
 
 
-def flat_of(p, n):
+def flat_of(p, n, names=None):
+    """The flattened name of element (p, n): the one the file's own mapping attribute records for
+    its absolute path when there is one (clashing proposals get a counter), else the proposal."""
+    if names is not None:
+        ab = "/" + "/".join(list(p) + [n])
+        if ab in names:
+            return names[ab]
     return "__".join(list(p) + [n])
 
 
 def cf_expected_token(T, rules, gpath, coords, ref, strict):
     """Acceptable replacement strings for one reference (None in the set = must raise)."""
+    vn, dn = getattr(T, "vnames", None), getattr(T, "dnames", None)
+
+    def flat_of(p, n, kind="var"):
+        return globals()["flat_of"](p, n, dn if kind == "dim" else vn)
     order = []
     if rules["ref_to_dim"] > rules["ref_to_var"]:
         order = ["dim"] + (["var"] if rules["ref_to_var"] else [])
@@ -301,15 +320,15 @@ def cf_expected_token(T, rules, gpath, coords, ref, strict):
         for kind in order:
             hits = cf_targets(T, gpath, ref, kind, False)
             if hits:
-                return {flat_of(*h) for h in hits}
+                return {flat_of(*h, kind) for h in hits}
     else:
         for kind in order:
             hits = cf_targets(T, gpath, ref, kind, rules["stop_at_local_apex"])
             if hits:
                 if kind == "var" and rules["limit_to_scalar_coordinates"]:
                     ok = coords is not None and ref in coords
-                    return {flat_of(*h) if ok and T.groups[h[0]]["vars"][h[1]] == 0 else ref for h in hits}
-                return {flat_of(*h) for h in hits}
+                    return {flat_of(*h, kind) if ok and T.groups[h[0]]["vars"][h[1]] == 0 else ref for h in hits}
+                return {flat_of(*h, kind) for h in hits}
     if rules["accept_standard_names"]:
         return {ref}
     return {None} if strict else {"REF_NOT_FOUND_" + ref}
@@ -375,6 +394,10 @@ def coord_case(rng):
             for side2 in GROUPS[:2]:
                 if side2 != side:
                     pool.append(F[:k] + [side, side2])
+    onchain = [F[:k] for k in range(len(D), len(F) + 1)]
+    if len(onchain) >= 2 and rng.random() < 0.4:
+        # two or three same-named coordinate variables on the data variable's ancestor path
+        cands = sorted(rng.sample(onchain, rng.choice([2, 2, min(3, len(onchain))])), key=lambda p: rng.random())
     for p in rng.sample(pool, min(len(pool), rng.choice([0, 1, 1, 2, 2, 3]))):
         if p not in cands:
             cands.append(p)
@@ -385,7 +408,7 @@ def coord_case(rng):
         offs = [p for p in offs if p not in cands and all(c[:len(p)] != p for c in cands)]
         if offs:
             shadow.append(rng.choice(offs))
-    return {"D": D, "F": F, "cands": cands, "shadow": shadow}
+    return {"D": D, "F": F, "cands": cands, "shadow": shadow, "strings": rng.random() < 0.15}
 
 
 def coord_tree(c):
@@ -404,6 +427,12 @@ def coord_tree(c):
 
     at(c["D"])["dims"].append(["x", 3])
     for j, p in enumerate(c["cands"]):
+        if c.get("strings"):
+            # string-valued coordinate variables (labels of different lengths)
+            at(p)["vars"].append({"name": "x", "dims": ["x"], "dtype": "str",
+                                  "values": [f"c{j}" + "x" * i for i in range(3)],
+                                  "attrs": {"long_name": "label"}})
+            continue
         at(p)["vars"].append({"name": "x", "dims": ["x"], "values": [10 * (j + 1) + i for i in range(3)],
                               "attrs": {"standard_name": "longitude", "units": "degrees_east"}})
     for p in c["shadow"]:
@@ -453,7 +482,7 @@ CHAINS = [["forecast", "model", "run"], ["g1", "g2", "g3"], ["a1", "b1", "c1"]]
 
 def ext(rng, chain, lo, hi=3, side_ok=True):
     """A group path extending chain[:lo]: along the chain, or a side branch."""
-    k = rng.randint(lo, hi)
+    k = rng.randint(lo, max(hi, lo))
     p = chain[:k]
     if side_ok and rng.random() < 0.2 and len(p) < 3:
         # a sibling of the next group of the chain whose name extends that group's name, so that
@@ -471,9 +500,17 @@ def field_spec(rng):
     naxes = rng.choice([1, 2, 2, 3])
     sizes = rng.sample([2, 3, 4, 5], naxes)
     names = ["x", "y", "z"][:naxes]
-    mode = rng.choice(["valid", "valid", "valid", "uniform", "random", "shadow", "root", "boundary"])
+    mode = rng.choice(["valid", "valid", "valid", "uniform", "random", "shadow", "root", "boundary", "varshadow", "deep"])
     kdata = rng.choice([0, 1, 2, 2, 3, 3])
     real_mode = mode
+    if mode == "deep":
+        # a chain of depth 4
+        chain = chain + [chain[-1] + "x"]
+        mode = "valid"
+        kdata = 4
+    if mode == "varshadow":
+        mode = "valid"
+        kdata = max(kdata, 2)
     if mode == "boundary":
         # valid by construction, then ONE variable is moved to a sibling of its dimension's group
         # whose name extends that group's name (/g1/g2b beside /g1/g2): must be refused
@@ -499,7 +536,7 @@ def field_spec(rng):
             if rng.random() < 0.5:
                 b = {"ncvar": names[i] + "_bnds", "groups": None if rng.random() < 0.6 else ext(rng, chain, len(dg), 3, False)}
                 if mode in ("valid", "uniform", "root", "shadow") and b["groups"] is not None:
-                    b["groups"] = chain[:rng.randint(len(dg), 3)] if mode != "root" else []
+                    b["groups"] = chain[:rng.randint(len(dg), max(3, len(dg)))] if mode != "root" else []
             cons.append({"type": "dim", "ncvar": names[i], "groups": dg, "axes": [i], "bounds": b,
                          "props": {"standard_name": ["longitude", "latitude", "height"][i],
                                    "units": ["degrees_east", "degrees_north", "m"][i]}})
@@ -533,6 +570,10 @@ def field_spec(rng):
     all_ax = list(range(naxes))
     if rng.random() < 0.8:
         mk("aux", "aux1", [rng.choice(all_ax)], {"long_name": "first aux"}, bounds=True)
+    if rng.random() < 0.35:
+        # a string-valued auxiliary coordinate (labels of different lengths)
+        mk("aux", "label", [rng.choice(all_ax)], {"long_name": "station label"})
+        cons[-1]["strings"] = True
     if naxes >= 2 and rng.random() < 0.7:
         mk("aux", "aux2", rng.sample(all_ax, 2), {"standard_name": "latitude", "units": "degrees_north"}, bounds=True)
     if rng.random() < 0.5:
@@ -558,6 +599,22 @@ def field_spec(rng):
         spec["grid_mapping"] = {"ncvar": "crs", "groups": place([]), "coords": auxes}
     if rng.random() < 0.4:
         spec["cell_methods"] = [{"axes": [rng.choice(data_axes)], "method": "mean"}]
+    if real_mode == "deep":
+        spec["mode"] = "deep"
+    if real_mode == "varshadow":
+        # two variables of the same name: one in the root group, one in a group on the data
+        # variable's ancestor path (open finding variable-shadowed: the writer refers to the root
+        # one by its bare name, which the nearer one captures)
+        spec["mode"] = "varshadow"
+        ax = [rng.choice(all_ax)]
+        root_ok = not axes[ax[0]]["dimgroups"]
+        spec["groups"] = chain[:max(len(spec["groups"]), 2)]
+        cons.append({"type": "aux", "ncvar": "twin", "groups": [] if root_ok else axes[ax[0]]["dimgroups"], "axes": ax,
+                     "bounds": None, "props": {"long_name": "outer twin"}})
+        inner = chain[:max(1, len(cons[-1]["groups"]) + 1)]
+        if len(inner) <= len(spec["groups"]) and len(inner) > len(cons[-1]["groups"]):
+            cons.append({"type": "aux", "ncvar": "twin", "groups": inner, "axes": ax,
+                         "bounds": None, "props": {"long_name": "inner twin"}})
     if real_mode == "boundary":
         spec["mode"] = "boundary"
         movable = [c for c in cons if c["type"] != "dim"
@@ -611,6 +668,36 @@ def groups_of(name):
 def py_visible(ncvar, ncdims):
     g = groups_of(ncvar)
     return all(g[:len(groups_of(d))] == groups_of(d) for d in ncdims)
+
+
+HIDDEN_MSG = "is hidden by the netCDF dimension of the same name"
+
+
+def py_hidden(ncvar, ncdims, alldims):
+    """True if netCDF would bind the basename of one of the dimensions to another dimension of
+    that name, defined in a group between the dimension's group and the variable's."""
+    gv = groups_of(ncvar)
+    for d in ncdims:
+        gd, b = groups_of(d), d.split("/")[-1]
+        for d2 in alldims:
+            g2 = groups_of(d2)
+            if d2 != d and d2.split("/")[-1] == b and len(g2) > len(gd) and gv[:len(g2)] == g2 and g2[:len(gd)] == gd:
+                return True
+    return False
+
+
+def dims_tree(alldims):
+    root = {"name": "", "dims": [], "vars": [], "subs": []}
+    for d in alldims:
+        g = root
+        for p in groups_of(d):
+            nxt = [x for x in g["subs"] if x["name"] == p]
+            if not nxt:
+                nxt = [{"name": p, "dims": [], "vars": [], "subs": []}]
+                g["subs"].append(nxt[0])
+            g = nxt[0]
+        g["dims"].append(d.split("/")[-1])
+    return root
 
 
 EXAMPLES = [0, 1, 2, 3, 5, 6, 7]
@@ -685,8 +772,10 @@ def run(chk, model_ok):
     for c in ref_cases:
         for pr in c["probes"]:
             pr.setdefault("coords", None)
-    for _ in range(0 if only not in ('', 'refs') else 330 if quick else 4800):
-        t = rand_tree(rng)
+    for k_ in range(0 if only not in ('', 'refs') else 330 if quick else 4800):
+        # every fifth tree goes to depth 4; every eighth uses the pools of clashing names
+        t = rand_tree(rng, maxdepth=4 if k_ % 5 == 4 else 3,
+                      pools=(GROUPS_C, DIMS_C, VARS_C) if k_ % 8 == 7 else None)
         probes = [rand_probe(rng, t, k) for k in range(rng.choice([6, 8, 10]))]
         ref_cases.append({"tree": t, "probes": probes})
     for c in ref_cases:
@@ -714,15 +803,26 @@ def run(chk, model_ok):
         flat_d = [flat_of(p_, d_) for p_, g_ in T.groups.items() for d_ in g_["dims"]]
         if len(set(flat_v)) < len(flat_v) or len(set(flat_d)) < len(flat_d):
             bump("refs:colliding-flat-names")
-            if any("exc" in ob["lax"] for ob in r["probes"]) or "varmap" not in r:
+            if "varmap" not in r:
                 chk.fail("property", "flat-name-collision",
                          "a valid grouped dataset whose flattened names coincide cannot be flattened: "
                          + str(r["probes"][0]["lax"]), {"input": c["tree"], "observed": r["probes"][0]})
-            continue
+                continue
+        if max(len(p_) for p_ in T.groups) >= 4:
+            bump("refs:depth-4-trees")
         # flat names must be distinct (injectivity) and the maps must be the traversal
         if "varmap" in r:
             vm = [x.split(": ") for x in r["varmap"]]
             dm = [x.split(": ") for x in r["dimmap"]]
+            T.vnames = {b_: a_ for a_, b_ in vm}
+            T.dnames = {b_: a_ for a_, b_ in dm}
+            # one entry per element, in both directions
+            for m, what, allel in ((vm, "variable", [(p_, v_) for p_, g_ in T.groups.items() for v_ in g_["vars"]]),
+                                   (dm, "dimension", [(p_, d_) for p_, g_ in T.groups.items() for d_ in g_["dims"]])):
+                want = sorted("/" + "/".join(list(p_) + [n_]) for p_, n_ in allel)
+                if sorted(b_ for _, b_ in m) != want:
+                    chk.fail("property", "name-map-incomplete", f"the {what} map does not list every {what} once",
+                             {"input": c["tree"], "expected": want, "observed": m})
             for m, what in ((vm, "variable"), (dm, "dimension")):
                 flats = [a for a, _ in m]
                 if len(set(flats)) != len(flats):
@@ -809,6 +909,16 @@ def run(chk, model_ok):
             continue
         got = r["dimcoord"]
         ok_set = coord_oracle(c)
+        for what in r.get("alias", []):
+            chk.fail("property", "array-aliased", f"overwriting a returned array in place changed what is read next: {what}",
+                     {"input": c, "observed": what})
+        if r.get("dimcoord_values_again") != r.get("dimcoord_values"):
+            chk.fail("property", "array-aliased", "the dimension coordinate's values changed after a returned array was overwritten",
+                     {"input": c, "observed": [r.get("dimcoord_values"), r.get("dimcoord_values_again")]})
+        if c.get("strings"):
+            bump("coord:string-valued")
+        if max([len(c["F"])] + [len(p) for p in c["cands"]]) >= 4:
+            bump("coord:depth-4")
         gotp = None
         if got:
             nm = got[0]
@@ -944,12 +1054,20 @@ def run_fields(chk, model_ok, rng, quick, scratch, bump, distinct, stats):
         check_field_case(chk, c, r, spec, variables, dimname, bump)
         G = r.get("G", {})
         accepted_all = "write_exc" not in G
-        rejected_vis = G.get("write_exc") == "ValueError" and "not in the same group nor in a parent group" in G.get("write_msg", "")
+        rejected_vis = G.get("write_exc") == "ValueError" and (
+            "not in the same group nor in a parent group" in G.get("write_msg", "")
+            or HIDDEN_MSG in G.get("write_msg", ""))
         if not accepted_all and not rejected_vis:
             continue
         layout = G.get("layout", {})
+        # the dimensions in the file when the variables are created, as a tree for the model
+        alldims = sorted({d for _, _, dims in variables for d in dims})
+        dtree = gtree(dims_tree(alldims))
+
+        def py_ok(n_, d_):
+            return py_visible(n_, d_) and not py_hidden(n_, d_, alldims)
         # per-variable literals: the writer creates variables until the first rejected one
-        pred_all = all(py_visible(n, d) for _, n, d in variables)
+        pred_all = all(py_ok(n, d) for _, n, d in variables)
         for kind, name, dims in variables:
             placed = "(@None (list str * str))"
             if accepted_all:
@@ -958,26 +1076,32 @@ def run_fields(chk, model_ok, rng, quick, scratch, bump, distinct, stats):
                 if len(homes) == 1:
                     hp = [x for x in homes[0].split("/") if x]
                     placed = f"(Some ({gpath(hp)}, {gs(base)}))"
+                if not py_ok(name, dims):
+                    continue                        # reported below as a property failure
                 ok = "true"
             else:
                 # rejected somewhere: only variables that are themselves fine are informative
-                if not py_visible(name, dims):
+                if not py_ok(name, dims):
                     continue
                 ok = "true"
-            lits.append(f"(true, {gs(name)}, {gpath(dims)}, {ok}, {placed})")
+            lits.append(f"({dtree}, true, {gs(name)}, {gpath(dims)}, {ok}, {placed})")
             lit_case.append((c, name, dims, r))
         if not accepted_all:
-            # at least one variable must be rejected by the model's check
-            bad_vars = [(n, d) for _, n, d in variables if not py_visible(n, d)]
+            # at least one variable must be rejected by the model's checks, for the stated reason
+            hidden = HIDDEN_MSG in G.get("write_msg", "")
+            bad_vars = [(n, d) for _, n, d in variables
+                        if (py_visible(n, d) and py_hidden(n, d, alldims)) == hidden and not py_ok(n, d)]
             if not bad_vars:
                 chk.fail("property", "writer-rejected-valid-placement",
-                         f"every dimension is visible from every variable, yet the writer refused: {G.get('write_msg')}",
+                         f"no variable has {'a hidden' if hidden else 'an invisible'} dimension, yet the writer refused: {G.get('write_msg')}",
                          {"input": spec, "observed": G})
             for n, d in bad_vars[:1]:
-                lits.append(f"(true, {gs(n)}, {gpath(d)}, false, (@None (list str * str)))")
+                lits.append(f"({dtree}, true, {gs(n)}, {gpath(d)}, false, (@None (list str * str)))")
                 lit_case.append((c, n, d, r))
         elif not pred_all:
             bad_vars = [(n, d) for _, n, d in variables if not py_visible(n, d)]
+            if not bad_vars:
+                continue                            # a hidden dimension accepted: see check_field_case
             chk.fail("property", "invisible-dimension-accepted",
                      f"the writer accepted {bad_vars[0][0]} although its dimension(s) {bad_vars[0][1]} are not in its group or a parent group",
                      {"input": spec, "observed": {k: v for k, v in G.items() if k != 'layout'}})
@@ -1025,6 +1149,21 @@ def predicted_shadow(variables):
     return False
 
 
+def predicted_var_shadow(variables):
+    """True if a variable in the root group (which the writer refers to by its bare name) has a
+    namesake in a non-root group at or above some other variable's group."""
+    names = [n for _, n, _ in variables]
+    for n in names:
+        if "/" in n:
+            continue
+        for m in names:
+            if "/" in m and m.split("/")[-1] == n:
+                gm = groups_of(m)
+                if any(groups_of(o)[:len(gm)] == gm for o in names if o != m):
+                    return True
+    return False
+
+
 class _Sub:
     """chk with every property signature replaced (all symptoms of one known cause)."""
 
@@ -1038,10 +1177,18 @@ class _Sub:
 def check_field_case(chk, c, r, spec, variables, dimname, bump):
     """The property oracle for one field x assignment."""
     inp = c["spec"]
-    if variables is not None and predicted_shadow(variables):
-        bump("field-with-shadowed-dimension")
-        chk = _Sub(chk, "dimension-shadowed")
     G, F = r.get("G", {}), r.get("F", {})
+    shadowed = variables is not None and predicted_shadow(variables)
+    if shadowed:
+        bump("field-with-shadowed-dimension")
+        if "write_exc" not in G:
+            chk.fail("property", "dimension-shadowed",
+                     "the writer accepted a variable one of whose dimensions is hidden by a same-named dimension in a nearer group",
+                     {"input": inp, "observed": {k: v for k, v in G.items() if k != "layout"}})
+            chk = _Sub(chk, "dimension-shadowed")
+    if variables is not None and predicted_var_shadow(variables):
+        bump("field-with-shadowed-variable")
+        chk = _Sub(chk, "variable-shadowed")
     if not r.get("unchanged", True):
         chk.fail("property", "write-changed-field", "writing changed the field or its netCDF names", {"input": inp})
     if "write_exc" in F:
@@ -1049,8 +1196,10 @@ def check_field_case(chk, c, r, spec, variables, dimname, bump):
         return
     if "write_exc" in G:
         bump("grouped-write-rejected")
-        if G["write_exc"] != "ValueError" or "not in the same group nor in a parent group" not in G.get("write_msg", ""):
-            # the only refusal the property allows is the writer's own visibility check
+        msg = G.get("write_msg", "")
+        if G["write_exc"] != "ValueError" or not ("not in the same group nor in a parent group" in msg
+                                                  or (shadowed and HIDDEN_MSG in msg)):
+            # the only refusals the property allows are the writer's own visibility checks
             chk.fail("property", "grouped-write-error:" + G["write_exc"],
                      f"grouped write raised {G['write_exc']}: {G.get('write_msg')}", {"input": inp, "observed": G})
         return
@@ -1067,6 +1216,10 @@ def check_field_case(chk, c, r, spec, variables, dimname, bump):
         if not (R.get("equals_orig") is True and R.get("orig_equals") is True):
             chk.fail("property", f"{tag}-readback-differs", f"the field read from the {tag} file does not equal the original",
                      {"input": inp, "observed": {k: v for k, v in R.items() if k != 'layout'}})
+    for tag in ("G", "F"):
+        for what in r.get(tag + "_alias", []):
+            chk.fail("property", "array-aliased", f"{tag}: overwriting a returned array in place changed what is read next: {what}",
+                     {"input": inp, "observed": what})
     if r.get("G_equals_F") is False:
         chk.fail("property", "grouped-differs-from-flat", "the fields read from the grouped and the flat file differ", {"input": inp})
     # a variable is only ever placed where its dimensions are visible, and they are the intended ones
